@@ -484,6 +484,7 @@ func checkC14(c *core.Ctx) error {
 	checkCategorical(c, p, d)
 	checkTraceOfProduct(c)
 	checkIntegerDivisionInConstants(c)
+	c14CompositeLayout(c)
 	return nil
 }
 
